@@ -111,6 +111,34 @@ def _offset_sites(mod):
     return sites
 
 
+def _index_temp_plus_one(fn, t):
+    """`t = <table>.index(..)` on every binding of the local t, and every read of t is `t + 1`: the same as `<table>.index(..) + 1` at each site"""
+    parents = {}
+    for p in ast.walk(fn):
+        for c in ast.iter_child_nodes(p):
+            parents[c] = p
+    if any(isinstance(n, (ast.FunctionDef, ast.AsyncFunctionDef, ast.Lambda)) and n is not fn and any(isinstance(x, ast.Name) and x.id == t for x in ast.walk(n))
+           for n in ast.walk(fn)) or t in {a.arg for a in fn.args.args + fn.args.kwonlyargs}:
+        return False
+    reads = 0
+    for n in ast.walk(fn):
+        if not (isinstance(n, ast.Name) and n.id == t):
+            continue
+        p = parents.get(n)
+        if isinstance(n.ctx, ast.Store):
+            v = p.value if isinstance(p, ast.Assign) and len(p.targets) == 1 and p.targets[0] is n else None
+            if not (isinstance(v, ast.Call) and isinstance(v.func, ast.Attribute) and v.func.attr == "index" and dotted(v.func.value) in TABLES):
+                return False
+        elif isinstance(n.ctx, ast.Load):
+            reads += 1
+            if not (isinstance(p, ast.BinOp) and isinstance(p.op, ast.Add) and any(isinstance(o, ast.Constant) and o.value == 1 and type(o.value) is int
+                                                                                   for o in (p.left, p.right) if o is not n)):
+                return False
+        else:
+            return False
+    return reads >= 1
+
+
 def derived_number_tables(ctx):
     """{name: (base table, problem or None)} for the module-level names of periodic.py that fold to a dict keyed by entries of symbols / names /
     lower_names with integer values: such a table stands for `<base>.index(key) + 1` and must say exactly that for every element"""
@@ -175,6 +203,8 @@ def check_offsets(ctx, rels, rule=None):
                 ok = isinstance(parent, ast.BinOp) and isinstance(parent.op, ast.Add) and (
                     (parent.left is node and isinstance(parent.right, ast.Constant) and parent.right.value == 1)
                     or (parent.right is node and isinstance(parent.left, ast.Constant) and parent.left.value == 1))
+                if not ok and isinstance(parent, ast.Assign) and parent.value is node and len(parent.targets) == 1 and isinstance(parent.targets[0], ast.Name):
+                    ok = _index_temp_plus_one(mod.functions[q], parent.targets[0].id)
                 ctx.check(ok, anchor, "Z=index+1:" + U(node),
                           "%s yields a 0-based index; the atomic number is index + 1 but the enclosing expression is `%s`"
                           % (U(node), U(parent) if parent is not None else "?"), node=node, rule=rule)
